@@ -77,6 +77,7 @@ def base_events():
         ("PAD", None, None, "ok", "ok"),
         ("AUX", None, None, "ok", "ok"),
         ("SH", 1, None, "ok", "ok"),
+        ("SH", 2, None, "ok", "ok"),
         ("FRAGN", (2, "bad", "same"), None, "ok", "ok"),
         ("FRAGN", ("rest", "alias", "same"), None, "ok", "ok"),
         ("FRAGN", ("rest", "ok", "diff"), None, "ok", "ok"),
@@ -120,7 +121,9 @@ class Context(object):
         self.f = B.tiny_format(profile=profile, major_version=major_version, level=level, picture_coding_mode=1 if fields else 0, frame_width=4, frame_height=8 if fields else 4, slices_x=SX, slices_y=SY)
         self.foreign = self.f.but(profile=B.PROFILE_HQ if profile == B.PROFILE_LD else B.PROFILE_LD)
         self.f_alt = self.f.but(frame_rate=("preset", 3))
-        self.sh = [B.seq_header(self.f), B.seq_header(self.f_alt)]
+        # a third header that differs from the first only in its last coded field before picture_coding_mode
+        self.f_late = self.f.but(color_spec=("custom", None, None, 1))
+        self.sh = [B.seq_header(self.f), B.seq_header(self.f_alt), B.seq_header(self.f_late)]
         self.hdr = {"major_version": major_version, "profile": profile, "level": level, "fields": bool(fields), "min_version": 1}
 
     @property
@@ -327,7 +330,7 @@ def evaluate(ctx, hist):
     if impl_accept:
         ikey = ("BETWEEN",)
     elif alive:
-        header_ids = {bytes(ctx.sh[0].payload()): 0, bytes(ctx.sh[1].payload()): 1}
+        header_ids = {bytes(ctx.sh[i].payload()): i for i in range(len(ctx.sh))}
         ikey = impl_key(state, len(data), header_ids)
     else:
         ikey = ("DEAD",)
